@@ -248,3 +248,73 @@ class TTGlyphPointPenSegmentTypes(Contract):
         return count, bad[:5]
 
     ensures = [prop("off-curve-kind-from-the-next-on-curve-of-its-own-contour", lambda a, old, r: r[0] > 4000 and not r[1])]
+
+
+@contract
+class TTGlyphPointPenRedraw(Contract):
+    """TTGlyphPointPen -> Glyph -> Glyph.drawPoints, for EVERY legal point-type sequence of up to
+    five points ('line' never right after an off-curve point) drawn as the first, second or third
+    contour: the glyph draws back the same contours - same points in the same order, off-curve
+    where they were off-curve, and each on-curve point with its segment type ('line' after an
+    on-curve point, else the 'qcurve' / 'curve' it was given) - so quadratic and cubic segments
+    stay what they were, also next to each other in one glyph."""
+    module = "fontTools.ttLib.tables._g_l_y_f"
+    qualname = "Glyph.drawPoints"
+    props = ("C14",)
+    shadow_mode = "real"
+    level = "PF"
+    assumptions = ("token-valued: 2964 glyphs (every type sequence of length 1..5 x three preceding-contour shapes), fixed integer coordinates",)
+
+    def args(self, S, variant):
+        return {}
+
+    def call(self, f, a):
+        import itertools
+        from fontTools.pens.ttGlyphPen import TTGlyphPointPen
+        from fontTools.pens.recordingPen import RecordingPointPen
+
+        def nz(cs):
+            out = []
+            for c in cs:
+                m, o = len(c), []
+                for i, (p, t) in enumerate(c):
+                    if t is None:
+                        o.append((p, None))
+                    else:
+                        o.append((p, "line" if (c[(i - 1) % m][1] is not None or m == 1) else t))
+                out.append(o)
+            return out
+        bad, n = [], 0
+        for L in range(1, 6):
+            for types in itertools.product((None, "line", "qcurve", "curve"), repeat=L):
+                if any(t == "line" and types[(i - 1) % L] is None and L > 1 for i, t in enumerate(types)):
+                    continue
+                for prefix in ([], [["line", "line", "line"]], [["qcurve", None, None]]):
+                    pen, k, want = TTGlyphPointPen(None), 0, []
+                    for c in prefix + [list(types)]:
+                        pen.beginPath()
+                        w = []
+                        for t in c:
+                            pt = (k * 10, (k * 7) % 13)
+                            pen.addPoint(pt, t)
+                            w.append((pt, t))
+                            k += 1
+                        pen.endPath()
+                        want.append(w)
+                    g = pen.glyph()
+                    rec = RecordingPointPen()
+                    f(g, rec, None)
+                    got, cur = [], None
+                    for name, args, kw in rec.value:
+                        if name == "beginPath":
+                            cur = []
+                        elif name == "addPoint":
+                            cur.append((args[0], args[1]))
+                        else:
+                            got.append(cur)
+                    n += 1
+                    if nz(got) != nz(want):
+                        bad.append((types, prefix, got))
+        return n, bad[:5]
+
+    ensures = [prop("same-contours-same-segment-kinds", lambda a, old, r: r[0] == 2964 and not r[1])]
